@@ -15,7 +15,7 @@ import Polar.Stats
 
   Property theorems: `central_correct`, `central_order_one`, `central_counterexample`,
   `cumulant_correct`, `cumulant_recursion_correct`, `cumulant_is_log_mgf`, `cumulant_one/two/three/four`,
-  `markov`, `markov_min`, `second_moment_lower`; finite tables: `hermite_table`,
+  `markov`, `markov_min`, `second_moment_lower`, `probHermite_eq_heSpec`; finite tables: `hermite_table`,
   `gauss_hermite_table`.
 -/
 
@@ -474,6 +474,127 @@ theorem second_moment_lower_needs_assumption :
     let d : Law := [(1, 0)]
     d.mass = 1 ∧ secondMomentLower (d.moment 1) (d.moment 2) 1 = 1 ∧ probGt d 1 = 0 := by
   decide +kernel
+
+/-! ### Hermite polynomials as coded -/
+
+lemma getD_add (p q : UPoly) (j : ℕ) : (UPoly.add p q).getD j 0 = p.getD j 0 + q.getD j 0 := by
+  induction p generalizing q j with
+  | nil => simp [UPoly.add]
+  | cons a p ih =>
+    cases q with
+    | nil => simp [UPoly.add]
+    | cons b q =>
+      cases j with
+      | zero => simp [UPoly.add]
+      | succ j => simp only [UPoly.add, List.getD_cons_succ]; exact ih q j
+
+lemma length_add (p q : UPoly) : (UPoly.add p q).length = max p.length q.length := by
+  induction p generalizing q with
+  | nil => simp [UPoly.add]
+  | cons a p ih =>
+    cases q with
+    | nil => simp [UPoly.add]
+    | cons b q => simp [UPoly.add, ih]
+
+lemma getD_scale (c : ℚ) (p : UPoly) (j : ℕ) : (UPoly.scale c p).getD j 0 = c * p.getD j 0 := by
+  unfold UPoly.scale
+  by_cases h : j < p.length
+  · simp [List.getD, h]
+  · simp [List.getD, h]
+
+lemma length_scale (c : ℚ) (p : UPoly) : (UPoly.scale c p).length = p.length := by
+  simp [UPoly.scale]
+
+lemma getD_mulX (p : UPoly) (j : ℕ) :
+    (UPoly.mulX p).getD j 0 = if j = 0 then 0 else p.getD (j - 1) 0 := by
+  cases j with
+  | zero => simp [UPoly.mulX]
+  | succ j => simp [UPoly.mulX]
+
+lemma length_physHermite (n : ℕ) : (physHermite n).length = n + 1 := by
+  induction n using Nat.strong_induction_on with
+  | _ n ih =>
+    match n with
+    | 0 => rfl
+    | 1 => rfl
+    | n + 2 =>
+      rw [physHermite, length_add, length_scale, length_scale, UPoly.mulX, List.length_cons,
+        ih (n + 1) (by omega), ih n (by omega)]
+      omega
+
+lemma length_heSpec (n : ℕ) : (heSpec n).length = n + 1 := by
+  induction n using Nat.strong_induction_on with
+  | _ n ih =>
+    match n with
+    | 0 => rfl
+    | 1 => rfl
+    | n + 2 =>
+      rw [heSpec, length_add, length_scale, UPoly.mulX, List.length_cons,
+        ih (n + 1) (by omega), ih n (by omega)]
+      omega
+
+/-- coefficients of the physicists' and the probabilists' Hermite polynomials -/
+lemma phys_eq_pow_mul_he (n j : ℕ) :
+    (physHermite n).getD j 0 = (2 : ℚ) ^ ((n + j) / 2) * (heSpec n).getD j 0 := by
+  induction n using Nat.strong_induction_on generalizing j with
+  | _ n ih =>
+    match n with
+    | 0 =>
+      cases j with
+      | zero => simp [physHermite, heSpec]
+      | succ j => simp [physHermite, heSpec]
+    | 1 =>
+      match j with
+      | 0 => simp [physHermite, heSpec]
+      | 1 => simp [physHermite, heSpec]
+      | j + 2 => simp [physHermite, heSpec]
+    | n + 2 =>
+      rw [physHermite, heSpec, getD_add, getD_add, getD_scale, getD_scale, getD_scale, getD_mulX,
+        getD_mulX, ih n (by omega) j]
+      have e2 : (n + 2 + j) / 2 = (n + j) / 2 + 1 := by omega
+      rw [e2, pow_succ]
+      cases j with
+      | zero => simp; ring
+      | succ j =>
+        simp only [Nat.succ_ne_zero, if_false, Nat.add_sub_cancel]
+        rw [ih (n + 1) (by omega) j]
+        have e1 : (n + 1 + j) / 2 = (n + (j + 1)) / 2 := by congr 1; omega
+        rw [e1]; ring
+
+lemma length_map_zipIdxFrom {β : Type} (f : ℚ × ℕ → β) (l : List ℚ) (i : ℕ) :
+    ((zipIdxFrom i l).map f).length = l.length := by
+  induction l generalizing i with
+  | nil => simp [zipIdxFrom]
+  | cons a t ih => simp [zipIdxFrom, ih]
+
+lemma getD_map_zipIdxFrom (f : ℚ × ℕ → ℚ) (l : List ℚ) (i j : ℕ) (h : j < l.length) :
+    ((zipIdxFrom i l).map f).getD j 0 = f (l.getD j 0, i + j) := by
+  induction l generalizing i j with
+  | nil => simp at h
+  | cons a t ih =>
+    cases j with
+    | zero => simp [zipIdxFrom]
+    | succ j =>
+      simp only [zipIdxFrom, List.map_cons, List.getD_cons_succ]
+      rw [ih (i + 1) j (by simpa using h)]
+      congr 2; omega
+
+/-- **`prob_hermite_poly` as coded is the probabilists' Hermite polynomial, for every n**:
+    `2^{-n/2} · H_n(x/√2)` expanded coefficient-wise equals `He_n` of the three-term recurrence
+    `He_{n+2} = x·He_{n+1} − (n+1)·He_n` (which Gram–Charlier and Cornish–Fisher rely on). -/
+theorem probHermite_eq_heSpec (n : ℕ) : probHermite n = heSpec n := by
+  apply List.ext_getElem
+  · rw [probHermite, length_map_zipIdxFrom, length_physHermite, length_heSpec]
+  · intro j h1 h2
+    have hj : j < (physHermite n).length := by
+      rw [probHermite, length_map_zipIdxFrom] at h1; exact h1
+    rw [List.getElem_eq_getD (h := h1) 0, List.getElem_eq_getD (h := h2) 0, probHermite,
+      getD_map_zipIdxFrom _ _ _ _ hj, phys_eq_pow_mul_he]
+    simp only [zero_add]
+    have : (2 : ℚ) ^ ((n + j) / 2) ≠ 0 := by positivity
+    field_simp
+
+example : probHermite 5 = [0, 15, 0, -10, 0, 1] := by decide +kernel
 
 /-! ### finite tables (tests, not unbounded claims) -/
 
